@@ -1706,7 +1706,8 @@ Proof.
            replace (parent op) with md by (symmetry; apply parent_app1).
            apply andb_true_intro. split.
            ++ exact GrpMd.
-           ++ simpl is_data. rewrite (name_ok_obj E (N.succ nx) schema nx EO Kn) by lia. simpl.
+           ++ simpl is_data. pose proof (name_ok_obj E (N.succ nx) schema nx EO Kn) as NK.
+              fold u in NK. rewrite NK by lia. simpl.
               rewrite forallb_forall. intros q I. rewrite SO2, O1 in I.
               apply in_app_or in I as [I|[<-|[]]].
               ** apply orb_true_iff. left. apply negb_true_iff, String.eqb_neq. now apply Fr'.
